@@ -595,12 +595,17 @@ spifconf_shell_expand(spif_charptr_t s)
                             break;
                       }
                   }
-                  *(--tmp1) = 0;
                   if (l) {
                       libast_print_error("parse error in file %s, line %lu:  Mismatched parentheses\n", file_peek_path(), file_peek_line());
+                      FREE(Command);
                       return (spif_charptr_t) NULL;
                   }
-                  Command = spifconf_shell_expand(Command);
+                  *(--tmp1) = 0;
+                  if (!spifconf_shell_expand(Command)) {
+                      /* The arguments themselves could not be expanded. */
+                      FREE(Command);
+                      return (spif_charptr_t) NULL;
+                  }
                   Output = (spif_charptr_t) (builtins[k].ptr) (Command);
                   FREE(Command);
                   if (Output) {
